@@ -598,6 +598,18 @@ func genC02(r *simrt.Rand, tier string) *simrt.Plan {
 	g := newL1Gen(r)
 	n := 5 + r.Intn(40)
 	var ops []simrt.Op
+	if r.Bool(0.12) {
+		// wide bitmap: one bit in each of several hundred containers, so that the B-tree has
+		// more than one leaf page; later mutations aim at the keys around page boundaries
+		nc := int64(simrt.Pick(r, 300, 520, 700, 1100))
+		var I []int64
+		for k := int64(0); k < nc; k++ {
+			I = append(I, k<<16|7, 1)
+		}
+		ops = append(ops, simrt.Op{K: "addn", I: I})
+		g.keys = []uint64{uint64(r.Intn(int(nc))), uint64(r.Intn(int(nc))), 253, 254, 255, 256, 507, 508, 509, uint64(nc - 1), uint64(nc)}
+		n = 5 + r.Intn(15)
+	}
 	for i := 0; i < n; i++ {
 		switch x := r.Intn(10); {
 		case x < 5:
@@ -614,6 +626,9 @@ func genC02(r *simrt.Rand, tier string) *simrt.Plan {
 }
 
 func genC05(r *simrt.Rand, tier string) *simrt.Plan {
+	if m := simrt.Mode("C05", 2); m != nil && r.Bool(0.3) {
+		return m.Gen(r, tier) // fragment level: the fragment file decoded against the live storage
+	}
 	p := l1Plan(r)
 	p.Knobs["replayevery"] = 1
 	g := newL1Gen(r)
